@@ -982,6 +982,45 @@ def as_bool(value):
         return False
     return bool(value)
 
+def _values(value):
+    """Return the values a comparison has to consider: the string value of
+    every node for a node set (`Attrs`), and the value itself for everything
+    else."""
+    if isinstance(value, Attrs):
+        return [val for _, val in value]
+    return [value]
+
+def _compare(op, lval, rval, relational=False):
+    """Compare two values as defined in section 3.4 of XPath 1.0: a node set
+    is compared existentially; for `=` and `!=` the operands are converted to
+    booleans if one of them is a boolean, else to numbers if one of them is a
+    number, else to strings; the relational operators compare numbers."""
+    if isinstance(lval, bool) or isinstance(rval, bool):
+        # a node set compared with a boolean is converted as a whole; the
+        # relational operators then compare numbers
+        if not relational or isinstance(lval, Attrs) or lval is None:
+            lval = as_bool(lval)
+        if not relational or isinstance(rval, Attrs) or rval is None:
+            rval = as_bool(rval)
+    elif lval is None or rval is None:
+        # an absent attribute: nothing is equal to it, nor ordered relative
+        # to it
+        return not relational and op(lval, rval)
+    for left in _values(lval):
+        for right in _values(rval):
+            if relational:
+                result = op(as_float(left), as_float(right))
+            elif isinstance(left, bool):
+                result = op(left, right)
+            elif isinstance(left, (int, float)) \
+                    or isinstance(right, (int, float)):
+                result = op(as_float(left), as_float(right))
+            else:
+                result = op(as_string(left), as_string(right))
+            if result:
+                return True
+    return False
+
 
 # Node tests
 
@@ -1474,9 +1513,9 @@ class EqualsOperator(object):
         self.lval = lval
         self.rval = rval
     def __call__(self, kind, data, pos, namespaces, variables):
-        lval = as_scalar(self.lval(kind, data, pos, namespaces, variables))
-        rval = as_scalar(self.rval(kind, data, pos, namespaces, variables))
-        return lval == rval
+        lval = self.lval(kind, data, pos, namespaces, variables)
+        rval = self.rval(kind, data, pos, namespaces, variables)
+        return _compare(operator.eq, lval, rval)
     def __repr__(self):
         return '%s=%s' % (self.lval, self.rval)
 
@@ -1487,9 +1526,9 @@ class NotEqualsOperator(object):
         self.lval = lval
         self.rval = rval
     def __call__(self, kind, data, pos, namespaces, variables):
-        lval = as_scalar(self.lval(kind, data, pos, namespaces, variables))
-        rval = as_scalar(self.rval(kind, data, pos, namespaces, variables))
-        return lval != rval
+        lval = self.lval(kind, data, pos, namespaces, variables)
+        rval = self.rval(kind, data, pos, namespaces, variables)
+        return _compare(operator.ne, lval, rval)
     def __repr__(self):
         return '%s!=%s' % (self.lval, self.rval)
 
@@ -1517,7 +1556,7 @@ class GreaterThanOperator(object):
     def __call__(self, kind, data, pos, namespaces, variables):
         lval = self.lval(kind, data, pos, namespaces, variables)
         rval = self.rval(kind, data, pos, namespaces, variables)
-        return as_float(lval) > as_float(rval)
+        return _compare(operator.gt, lval, rval, relational=True)
     def __repr__(self):
         return '%s>%s' % (self.lval, self.rval)
 
@@ -1530,7 +1569,7 @@ class GreaterThanOrEqualOperator(object):
     def __call__(self, kind, data, pos, namespaces, variables):
         lval = self.lval(kind, data, pos, namespaces, variables)
         rval = self.rval(kind, data, pos, namespaces, variables)
-        return as_float(lval) >= as_float(rval)
+        return _compare(operator.ge, lval, rval, relational=True)
     def __repr__(self):
         return '%s>=%s' % (self.lval, self.rval)
 
@@ -1543,7 +1582,7 @@ class LessThanOperator(object):
     def __call__(self, kind, data, pos, namespaces, variables):
         lval = self.lval(kind, data, pos, namespaces, variables)
         rval = self.rval(kind, data, pos, namespaces, variables)
-        return as_float(lval) < as_float(rval)
+        return _compare(operator.lt, lval, rval, relational=True)
     def __repr__(self):
         return '%s<%s' % (self.lval, self.rval)
 
@@ -1556,7 +1595,7 @@ class LessThanOrEqualOperator(object):
     def __call__(self, kind, data, pos, namespaces, variables):
         lval = self.lval(kind, data, pos, namespaces, variables)
         rval = self.rval(kind, data, pos, namespaces, variables)
-        return as_float(lval) <= as_float(rval)
+        return _compare(operator.le, lval, rval, relational=True)
     def __repr__(self):
         return '%s<=%s' % (self.lval, self.rval)
 
